@@ -967,6 +967,9 @@ class Constraints:
 
     @classmethod
     def multiple_of(cls, value, of: int):
+        if isinstance(value, Decimal) and isinstance(of, float):
+            # Decimal % float is a TypeError: take the bound as it is written (0.5 -> Decimal('0.5'))
+            of = Decimal(str(of))
         mod = value % of
         if mod:
             raise ValueError
@@ -974,6 +977,8 @@ class Constraints:
 
     @classmethod
     def lax_multiple_of(cls, value, of: int):
+        if isinstance(value, Decimal) and isinstance(of, float):
+            of = Decimal(str(of))
         mod = value % of
         if mod:
             return (value // of) * of
